@@ -148,8 +148,15 @@ func (c *Ctx) thresholdWiring(r *shape.Result, fi *load.FuncInfo, term sym.Expr)
 		return
 	}
 	info := fi.Pkg.TypesInfo
-	plain := func(e ast.Expr, fd *ast.FuncDecl) bool {
+	var plain func(e ast.Expr, fd *ast.FuncDecl) bool
+	plain = func(e ast.Expr, fd *ast.FuncDecl) bool {
 		e = ast.Unparen(e)
+		if id, ok := e.(*ast.Ident); ok {
+			// a local that is defined once from a plain value
+			if d, has := singleDefs(info, fd.Body)[info.ObjectOf(id)]; has && d != e {
+				return plain(d, fd)
+			}
+		}
 		if tv, ok := info.Types[e]; ok && tv.Value != nil {
 			return true // constant or literal
 		}
